@@ -37,16 +37,19 @@ def deserialize_hml(ser: Slice, m: int) -> typing.Tuple[int, bitarray]:
         _type = 'short'
     if _type == 'short':
         n = deserialize_unary(ser)
-        s = ser.load_bits(n)
     elif _type == 'long':
         l = m.bit_length()
         n = ser.load_uint(l) if l else 0  # n:(#<= 0) takes no bits
-        s = ser.load_bits(n)
     else:  # same
         v = ser.load_bit()
         l = m.bit_length()
         n = ser.load_uint(l) if l else 0  # n:(#<= 0) takes no bits
+    if n > m:  # hml_short {n <= m}, hml_long / hml_same n:(#<= m)
+        raise ValueError(f'hashmap label of {n} bits exceeds the remaining key length {m}')
+    if _type == 'same':
         s = bitarray(str(v) * n)
+    else:
+        s = ser.load_bits(n)
     return n, s
 
 
